@@ -145,6 +145,22 @@ def run_stock(case, snap=True):
     return dict(kind="ok", value=observe_stock(st, snap))
 
 
+def run_stock_reuse(case, first_driver, snap=True):
+    """the same stock object computed with another driver first, then with the case's driver"""
+    try:
+        st = mk_stock(dict(case, driver=first_driver))
+        st.compute()
+        drv = np.array([float(Fraction(v)) for v in case["driver"]]).reshape(st.stock.values.shape)
+        if case["cls"] == "sdsm":
+            st.stock.values[...] = drv
+        else:
+            st.inflow.values[...] = drv
+        st.compute()
+    except Exception as e:  # noqa
+        return dict(kind="err", exc=type(e).__name__, msg=str(e)[:200])
+    return dict(kind="ok", value=observe_stock(st, snap))
+
+
 def fr(v):
     return None if v is None else Fraction(v[0], v[1])
 
